@@ -14,7 +14,7 @@ use serde_json::{json, Value};
 pub const META: Meta = Meta {
     id: "C04",
     level: "exploration",
-    rule: "Categorical product, enumerated: entity ETag {absent, strong, weak, strong containing ', '} x mtime {absent, whole second, sub-second} x If-Match and If-None-Match each in {absent} + 12 representative lists (crossed fully with each other) x If-Modified-Since, If-Unmodified-Since in {absent, LM-1s, LM, LM+1s} x {GET, HEAD}; every list of 1-3 tags over {own tag, W/-toggled, other strong, other weak, comma tag} and '*' crossed with all other dimensions singly; the tag-content phase (entity tags that are a list separator, end in backslashes, hold obs-text or U+FFFD, against every list of 1-3 tags over own / toggled / one-byte-off / comma-edged / backslash-ended neighbours x 4 separators); proptest for 4-tag lists, random tag bytes, all list separators, obsolete date formats, an added Range header and other mtimes. Oracle: the statement evaluated literally by an independent precondition evaluator (own quoted-string-aware list splitter); 'continues' = same status/headers/body as the request without the four conditionals. Non-trivial = >= 2 conditional headers, or a list of >= 2 tags, or a sub-second mtime with a date header; distinct by fingerprint of case.",
+    rule: "Categorical product, enumerated: entity ETag {absent, strong, weak, strong containing ', '} x mtime {absent, whole second, sub-second} x If-Match and If-None-Match each in {absent} + 12 representative lists (crossed fully with each other) x If-Modified-Since, If-Unmodified-Since in {absent, LM-1s, LM, LM+1s} x {GET, HEAD}; every list of 1-3 tags over {own tag, W/-toggled, other strong, other weak, comma tag} and '*' crossed with all other dimensions singly; the tag-content phase (entity tags that are a list separator, end in backslashes, hold obs-text or U+FFFD, against every list of 1-3 tags over own / toggled / one-byte-off / comma-edged / backslash-ended neighbours x 4 separators); lists of up to 301 tags with the deciding tag last; proptest for 4-tag lists, random tag bytes, dates beyond 2^31 and 2^32 seconds, all list separators, obsolete date formats, an added Range header and other mtimes. Oracle: the statement evaluated literally by an independent precondition evaluator (own quoted-string-aware list splitter); 'continues' = same status/headers/body as the request without the four conditionals. Non-trivial = >= 2 conditional headers, or a list of >= 2 tags, or a sub-second mtime with a date header; distinct by fingerprint of case.",
     assumptions: &[
         "validators are well-formed (the statement's premise); modification times are not in the future (C14 covers the clamp)",
         "HTTP-dates are parsed with the httpdate crate in the oracle as well",
@@ -519,6 +519,47 @@ pub fn run_all(cx: &Cx) -> Acc {
                             range: None,
                         };
                         acc.run_case(cx, "awkward-tags", &c, |acc| check(&c, acc));
+                    }
+                }
+            }
+        }
+    }));
+    // List *length*: the deciding tag after k other tags.
+    let ks: Vec<usize> = vec![0, 1, 2, 3, 5, 7, 8, 9, 15, 16, 17, 31, 32, 33, 63, 64, 65, 100, 255, 256, 300];
+    acc.merge(par_units(cx, "long-tag-lists", &ks, true, "k other tags (strong, weak, comma-bearing) then {own, W/-toggled, one byte off, nothing} x 4 separators x {If-Match, If-None-Match} x 4 entity tags x GET/HEAD", |cx, &k, acc| {
+        for etag in [quote(b"foo", false), quote(b"foo", true), quote(b"a, b", false), quote(b",", false)] {
+            let mut lasts: Vec<Option<Vec<u8>>> = vec![None, Some(etag.0.clone()), Some(reqgen::toggle_weak(&etag.0))];
+            lasts.extend(reqgen::one_byte_off(&etag.0).into_iter().take(1).map(Some));
+            for last in &lasts {
+                for sep in reqgen::LIST_SEPS {
+                    let mut tags: Vec<Vec<u8>> = (0..k)
+                        .map(|i| match i % 4 {
+                            0 => format!("\"f{i}\"").into_bytes(),
+                            1 => format!("W/\"f{i}\"").into_bytes(),
+                            2 => format!("\"f{i}, g\"").into_bytes(),
+                            _ => format!("\"{i},\"").into_bytes(),
+                        })
+                        .collect();
+                    tags.extend(last.clone());
+                    if tags.is_empty() {
+                        continue;
+                    }
+                    let refs: Vec<&Vec<u8>> = tags.iter().collect();
+                    let list = join(&refs, sep);
+                    for as_im in [true, false] {
+                        for method in ["GET", "HEAD"] {
+                            let c = Case {
+                                etag: Some(etag.clone()),
+                                mtime: Mtime::At(T0, 0),
+                                method: method.into(),
+                                if_match: if as_im { Some(list.clone()) } else { None },
+                                if_none_match: if as_im { None } else { Some(list.clone()) },
+                                if_modified_since: None,
+                                if_unmodified_since: None,
+                                range: None,
+                            };
+                            acc.run_case(cx, "long-tag-lists", &c, |acc| check(&c, acc));
+                        }
                     }
                 }
             }
